@@ -395,6 +395,9 @@ def get_dtype_kind(arr, backend):
 # Utility functions
 
 def safe_eq(a, b):
+    # a character literal such as 0c{ or 0c( is a KGChar (a str) and is not the token "{" or "("
+    if isinstance(a, KGChar) and not isinstance(b, KGChar):
+        return False
     return isinstance(a, type(b)) and a == b
 
 
